@@ -3,6 +3,6 @@ CONSTANTS
   N = 5
   Cap = 3
   MaxVer = 2
-  MaxBatch = 3
+  MaxBatch = 4
 INVARIANTS Transparent Coherent
 CHECK_DEADLOCK FALSE
